@@ -247,6 +247,22 @@ def check_instance(n, k, iseed, nbox, ndir):
             v("reproducible", what="value differs between constructions / over time", point=oc.jl(x),
               first=oc.h2f(hb), second_object=oc.h2f(a), first_object_again=oc.h2f(b), others_between=others)
             break
+    # the generator object of p2 is re-seeded: another function number, then number k again ("function (n, k) is always the same
+    # function" - also when it is generated a second time on the same generator object)
+    k2 = k % 100 + 1
+    _, err = oc.guarded(lambda: (p2.function.SetFunctionNumber(k2), p2.function.SetFunctionNumber(k)))
+    if err is not None:
+        v("reproducible", what="re-seeding the generator object raised", **err)
+    else:
+        if oc.gkls_digest(p2) != dig:
+            v("reproducible", what="tables differ after the generator object was re-seeded (other number, then the same number again)",
+              other_number=k2)
+        for x, hb in zip(kept, before):
+            a = oc.f2h(oc.real_eval(p2, x))
+            if a != hb:
+                v("reproducible", what="value differs after the generator object was re-seeded", point=oc.jl(x),
+                  first=oc.h2f(hb), after_reseeding=oc.h2f(a), other_number=k2)
+                break
     return viol, info
 
 
